@@ -308,6 +308,11 @@ def run(ctx):
                     sched.append(('read', m['raw'], None))
             run_schedule(ctx, msgs, sched, 'server' if i % 2 else 'client', {'kind': 'fd-handshake', 'idx': i})
             ctx.count('descriptor_messages_at_handshake_end')
+        # ... and what one connection is delivered does not depend on where the stream of ANOTHER connection of the
+        # process was cut (two connections, both receiving descriptor-carrying messages, reads interleaved)
+        from checks.c20 import two_receivers
+        for i in range(150 if quick else 3000):
+            two_receivers(ctx, ctx.seed, 100000 + i)
 
     # medium sequences: one byte per read, all in one read, random partitions
     nmed = (25 if quick else 300) // sn + 1
@@ -407,5 +412,8 @@ def replay(ctx, rp):
         n = len(handshake_bytes(case['mode'])) + sum(len(r_) for r_, _, _ in seq)
         cuts = list(range(1, n)) if case['cuts'] == 'bytewise' else case['cuts']
         run_partition(ctx, case['mode'], seq, cuts, True, case)
+    elif kind == 'two-receivers':
+        from checks.c20 import two_receivers
+        two_receivers(ctx, seed, case['idx'])
     else:
         ctx.inconclusive = 'replay of %s cases: re-run the check with the same seed' % kind
